@@ -187,6 +187,7 @@ theorem runCatch_out (env : Env) (lang : Option Bytes) (b : Bytes) :
   apply Keeps.ite
   · apply Keeps.bind P (logMove_out _ _); intro _
     apply Keeps.bind P (applyTarget_out _); intro _
+    apply Keeps.bind P vmReset_out; intro _
     exact getCodeM_out _ _ _
   · exact Keeps.pure P _
 
